@@ -12,7 +12,7 @@
    determinism theorem is discharged with the scanner invariant of Proofs/LexerProofs.v. *)
 From Soy Require Import Model.Bytes Model.Utf8 Model.Outcome Model.Token Model.Lexer Generated.Tables Model.Interp Spec.ErrPos
   Proofs.Utf8Proofs Proofs.LexerPrim Proofs.LexerStates Proofs.LexerProofs Proofs.LexTokens Proofs.ErrTokProofs Proofs.LexErrPos
-  Proofs.ErrPosReach Proofs.LexPrefix Proofs.LexPrefixStates Proofs.LexPrefixMain.
+  Proofs.ErrPosReach Proofs.LexPrefix Proofs.LexPrefixStates Proofs.LexPrefixMain Proofs.LexEofPos Proofs.LexFinalPos Proofs.ErrPosFinal.
 From Coq Require Import ZifyBool ZifyNat ZifyN Lia List.
 Import ListNotations.
 Open Scope Z_scope.
@@ -88,5 +88,92 @@ Proof.
   pose proof (valid_scan_transfers pre r1 r2 k LInsideTag l H ltac:(discriminate) Hg) as H2.
   pose proof (steps_inv (pre ++ r1) k LText lex_init LInsideTag l (init_inv (pre ++ r1) 0 false) H) as (Hw & _). unfold wf in Hw.
   apply (illegal_char_reached ul ud (pre ++ r2) k l ws c rest fuel H2 ltac:(lia) Hd Hws Hc Hr Hnl).
+Qed.
+
+(* ---- per-state look-ahead (Proofs/LexPrefixMain.v: margin, steps_det_m) ----
+   every step j -> j+1 of the reference scan ends [margin st_j] bytes before the end of the common prefix, st_j the
+   state function that ran: 4 for the tag delimiters and lexBeginTag, 8 for text, the inside of a tag, strings,
+   comments, identifiers and numbers, 12 for css and literal blocks, 16 for soydoc, 24 for a header @param *)
+Definition within_margins (pre s : bstr) (k : nat) : Prop :=
+  forall j stj lj stn ln, (j < k)%nat ->
+    steps ul ud s 0 j LText lex_init = Ok (stj, lj) -> steps ul ud s 0 (S j) LText lex_init = Ok (stn, ln) ->
+    l_pos ln + margin stj <= Z.of_nat (length pre).
+
+Lemma before_margin_within pre s k :
+  (forall j stj lj, (j <= k)%nat -> steps ul ud s 0 j LText lex_init = Ok (stj, lj) -> before_margin pre lj) ->
+  within_margins pre s k.
+Proof.
+  intros Hg j stj lj stn ln Hj Hs Hn. pose proof (Hg (S j) stn ln ltac:(lia) Hn) as Hb. unfold before_margin in Hb.
+  pose proof (margin_le_M stj). lia.
+Qed.
+
+Theorem valid_scan_transfers_m pre r1 r2 k st l :
+  steps ul ud (pre ++ r1) 0 k LText lex_init = Ok (st, l) -> st <> LDone ->
+  within_margins pre (pre ++ r1) k ->
+  steps ul ud (pre ++ r2) 0 k LText lex_init = Ok (st, l).
+Proof.
+  intros H Hl Hg. rewrite <- psteps_steps. apply (steps_det_m ul ud pre r1 r2 0 k LText lex_init st l).
+  - rewrite psteps_steps. exact H.
+  - intros j Hj stj lj Hs. rewrite psteps_steps in Hs. split.
+    + destruct (Nat.eq_dec j k) as [->|Hne].
+      * rewrite H in Hs. inversion Hs; subst. exact Hl.
+      * exact (steps_live ul ud (pre ++ r1) k LText lex_init st l H Hl j ltac:(lia) stj lj Hs).
+    + pose proof (steps_inv (pre ++ r1) j LText lex_init stj lj (init_inv (pre ++ r1) 0 false) Hs) as (Hw & _). unfold wf in Hw. lia.
+  - intros j Hj stj lj stn ln Hs Hn. rewrite psteps_steps in Hs, Hn. exact (Hg j stj lj stn ln Hj Hs Hn).
+Qed.
+
+Theorem stray_brace_after_valid_prefix_m pre r1 r2 k l txt rest fuel :
+  steps ul ud (pre ++ r1) 0 k LText lex_init = Ok (LText, l) ->
+  within_margins pre (pre ++ r1) k ->
+  drop (Z.to_nat (l_pos l)) (pre ++ r2) = txt ++ 125%N :: rest -> Forall plain txt ->
+  let f := pre ++ r2 in
+  let e := err_item (l_pos l + Z.of_nat (length txt) + 1) e_close_brace in
+  lex_items ul ud (k + S fuel) false f = Ok (rev (l_out l) ++ [e]) /\
+  line_at f (t_pos e) = (1 + count_nl (take (Z.to_nat (l_pos l)) f ++ txt))%N.
+Proof.
+  intros H Hg Hd Hpl f e.
+  pose proof (valid_scan_transfers_m pre r1 r2 k LText l H ltac:(discriminate) Hg) as H2.
+  pose proof (steps_inv (pre ++ r1) k LText lex_init LText l (init_inv (pre ++ r1) 0 false) H) as (Hw & _). unfold wf in Hw.
+  apply (stray_brace_reached ul ud (pre ++ r2) k l txt rest fuel H2 ltac:(lia) Hd Hpl).
+Qed.
+
+Theorem illegal_char_after_valid_prefix_m pre r1 r2 k l ws c rest fuel :
+  steps ul ud (pre ++ r1) 0 k LText lex_init = Ok (LInsideTag, l) ->
+  within_margins pre (pre ++ r1) k ->
+  drop (Z.to_nat (l_pos l)) (pre ++ r2) = ws ++ c :: rest -> Forall space_byte ws -> (c < 128)%N ->
+  reaches_default (Z.of_N c) = true -> c <> 10%N ->
+  let f := pre ++ r2 in
+  let e := err_item (l_pos l + Z.of_nat (length ws) + 1) e_bad_char in
+  lex_items ul ud (k + (length ws + S fuel)) false f = Ok (rev (l_out l) ++ [e]) /\
+  line_at f (t_pos e) = (1 + count_nl (take (Z.to_nat (l_pos l)) f ++ ws))%N.
+Proof.
+  intros H Hg Hd Hws Hc Hr Hnl f e.
+  pose proof (valid_scan_transfers_m pre r1 r2 k LInsideTag l H ltac:(discriminate) Hg) as H2.
+  pose proof (steps_inv (pre ++ r1) k LText lex_init LInsideTag l (init_inv (pre ++ r1) 0 false) H) as (Hw & _). unfold wf in Hw.
+  apply (illegal_char_reached ul ud (pre ++ r2) k l ws c rest fuel H2 ltac:(lia) Hd Hws Hc Hr Hnl).
+Qed.
+
+(* ---- the fault classes reported at the end of the input: unterminated soydoc / block comment / string / tag ----
+   v = pre ++ r1 a file whose scan reaches, within the margins, some configuration; f = pre ++ r2 a file with the
+   same first |pre| bytes whose scan ends in an error item of the end-of-input classes: the scan of f passes through
+   that very configuration (the items of the valid prefix are a prefix of the items of f), its last item is that
+   error item, it stands at |f|, and its line is the LAST line of f -- not before the line of any position of f,
+   in particular of the place where the construct was opened *)
+Theorem eof_fault_after_valid_prefix pre r1 r2 k st l fuel ts e :
+  steps ul ud (pre ++ r1) 0 k LText lex_init = Ok (st, l) -> st <> LDone ->
+  within_margins pre (pre ++ r1) k ->
+  let f := pre ++ r2 in
+  lex_items ul ud fuel false f = Ok (ts ++ [e]) -> t_typ e = itemError -> eof_class (t_val e) = true ->
+  steps ul ud f 0 k LText lex_init = Ok (st, l) /\
+  t_pos e = N.of_nat (length f) /\ line_at f (t_pos e) = lines f /\
+  (forall opened, (opened <= N.of_nat (length f))%N -> (line_at f opened <= line_at f (t_pos e))%N).
+Proof.
+  intros H Hl Hg f Hlex Hty Hc.
+  split; [exact (valid_scan_transfers_m pre r1 r2 k st l H Hl Hg)|].
+  destruct (scanned_item_facts ul ud letter_eof digit_eof fuel f (ts ++ [e]) e Hlex
+              ltac:(right; apply in_or_app; right; left; reflexivity)) as (_ & _ & _ & He).
+  destruct (He Hty) as (_ & _ & Hend). destruct (Hend Hc) as (Ep & El).
+  split; [exact Ep|]. split; [exact El|].
+  intros opened Ho. rewrite Ep. exact (proj2 (end_of_input_line f opened Ho)).
 Qed.
 End Compose.
